@@ -1,3 +1,20 @@
 import Pms.Props.C09
 
 #print axioms Pms.Boo.C09_qlm_def
+#print axioms Pms.Boo.C09_weighted_def
+#print axioms Pms.Boo.C09_equal_weights
+#print axioms Pms.Boo.C09_coarse_def
+#print axioms Pms.Boo.C09_ql_def
+#print axioms Pms.Boo.C09_sij_def
+#print axioms Pms.Boo.C09_count_def
+#print axioms Pms.Boo.C09_sij_bound
+#print axioms Pms.Boo.C09_count_le
+#print axioms Pms.Boo.ql_le_one_of_sumSq
+#print axioms Pms.Boo.sumSq_qlm_le
+#print axioms Pms.Boo.C09_ql_bounds
+#print axioms Pms.Boo.sumSq_qlmW_le
+#print axioms Pms.Boo.C09_ql_bounds_weighted
+#print axioms Pms.Boo.C09_Ql_bounds
+#print axioms Pms.Boo.C09_w_def
+#print axioms Pms.Boo.C09_w_source
+#print axioms Pms.Boo.C09_wcap_def
